@@ -211,7 +211,10 @@ X_DIRECTED = [
     ((base_doc(6, 4, [(6, 4, 0, 0, 1, 0, [[A, Bc, Sp, enc(176, 3, 10, 0, 0), enc(220, 1, 9, 0, 0)]])]), 0, 1, 0, 0, [], 0),
      [('ice', [1]), ('ice', [2]), ('palmode', [2]), ('palmode', [0]), ('palmode', [3]), ('palmode', [1]), ('U', []), ('U', []), ('U', []), ('U', []), ('U', []), ('U', []),
       ('R', []), ('R', []), ('R', []), ('R', []), ('R', []), ('R', [])]),
-    # a scroll over part of the layer width is outside the model (skipped), the whole width is not
+    # fixed (C08-scroll-area-raw-lines): scroll up / down over part of the layer width, one row high and several rows high; the whole width
+    ((base_doc(6, 4, [(6, 4, 0, 0, 1, 0, [[A, Bc, A, Sp, A, Bc], [Bc, A], [A, A, A, Bc, Sp], [Sp, Sp, Bc]])]), 0, 1, 0, 0, [], 0),
+     [('sel', [1, 1, 3, 2, 0]), ('scrup', []), ('scrdown', []), ('sel', [1, 0, 4, 3, 0]), ('scrup', []), ('scrup', []), ('scrdown', []), ('sel', [2, 1, 6, 4, 0]), ('scrdown', []),
+      ('U', []), ('U', []), ('U', []), ('U', []), ('U', []), ('U', []), ('U', []), ('U', []), ('U', []), ('R', []), ('R', []), ('R', []), ('R', []), ('R', []), ('R', []), ('R', []), ('R', []), ('R', [])]),
     ((base_doc(6, 4, [(6, 4, 0, 0, 1, 0, [[A, A, A, A], [Bc]])]), 0, 1, 0, 0, [], 0),
      [('sel', [1, 0, 3, 2, 0]), ('scrup', []), ('scrleft', []), ('scrright', []), ('scrright', []), ('desel', []), ('scrup', []), ('scrdown', []), ('scrdown', []), ('scrleft', []),
       ('U', []), ('U', []), ('U', []), ('U', []), ('U', []), ('U', []), ('U', []), ('R', []), ('R', []), ('R', []), ('R', []), ('R', [])]),
